@@ -14,8 +14,8 @@ from common import run_driver, parallel, Report, tier, seed, fs, canon
 QT = 10000
 TOL = Fraction(1, 10 ** 6)
 LIMITS = [0, 1, 1000, 1000000, None]
-GAPS = [None, '0', '1e-6', '0.5', '1', '10', '-1', 'NaN', 'inf', '-0.0']
-INVALID = ('-1', 'NaN', 'inf')
+GAPS = [None, '0', '1e-6', '0.5', '1', '10', '-1', 'NaN', 'inf', '-0.0', '-inf', '-1e-9']
+INVALID = ('-1', 'NaN', 'inf', '-inf', '-1e-9')
 
 
 def option_sets(idx, full):
@@ -215,7 +215,10 @@ def family(t, sd):
     items = []
     for i, s in enumerate(specs):
         ops = [('milp_with', o) for o in option_sets(i, t == 'thorough' and i % 4 == 0)]
-        ops += [('microlp_builder', o) for o in option_sets(i, False)[:: 3]]
+        # the builder's wrapper forwards the options itself: every invalid gap goes through it too, with and without a limit
+        bo = option_sets(i, False)
+        ops += [('microlp_builder', o) for o in bo[:: 3] if o['gap'] not in INVALID]
+        ops += [('microlp_builder', {'gap': g, 'limit_ns': (None, 0, 1000000)[(i + k) % 3]}) for k, g in enumerate(INVALID)]
         items.append({'idx': i, 'lm': s, 'ops': ops})
     return items
 
@@ -296,7 +299,7 @@ def main(prop='C15'):
             'must_fail_twins': {'tried': tw[0], 'detected': tw[1]},
             'samples': [{'lm': it['lm'], 'ops': it['ops'][:3]} for it in items[:: max(1, len(items) // 3)][:3]],
             'exhaustive': False,
-            'family': 'seeded MILP members of L(3,3) + 4..7-variable knapsack-like MILPs (min, max and satisfy) x limits {0,1ns,1us,1ms,none} x gaps {none,0,1e-6,0.5,10,-1,NaN,inf,-0.0}',
+            'family': 'seeded MILP members of L(3,3) + 4..7-variable knapsack-like MILPs (min, max and satisfy) x limits {0,1ns,1us,1ms,none} x gaps {none,0,1e-6,0.5,1,10,-0.0; invalid: -1,NaN,inf,-inf,-1e-9}; every invalid gap also through the builder wrapper',
             'functions_encoded': ['solve_milp_lp_problem_with', 'builder::Microlp::{with_mip_gap,with_time_limit} + Solver::solve'],
             'solver': 'z3 %s' % z3.get_version_string(), 'driver_build_s': round(build_s, 1), 'check_s': round(time.time() - t0, 1),
         },
